@@ -2,6 +2,7 @@
 # run every registered quick check with the given seed; prints one line per property
 SEED=${1:-1}; TIER=${2:-quick}
 cd "$(dirname "$0")/.." || exit 2
+mkdir -p work
 for p in C01 C02 C03 C04 C05 C06 C07 C08 C09 C10 C11 C12 C13 C14 C15 C16 C17 C18; do
   s=$(date +%s)
   VERIF_SEED=$SEED timeout 3000 ./check.sh $p $TIER > work/all_$p.out 2>&1; rc=$?
